@@ -285,15 +285,18 @@ RULESETS = [
     ("vector-run", [], [("(m #(a ...))", "(v a ...)")]),
     ("list-only", [], [("(m (a b))", "(list-of-two a b)"), ("(m a)", "(something-else a)")]),
     ("template-vector", [], [("(m a b ...)", "#(a (b b) ...)")]),
+    # a declared literal is special only where a pattern spells it: as an item of a run, or bound to a variable, it is just a form
+    ("literal-inside-a-run", ["lit"], [("(m a b ...)", "(first a b ...)"), ("(m a b c)", "(second a b c)")]),
+    ("literal-after-a-run-of-lists", ["lit"], [("(m (a b) ...)", "(pairs a ... b ...)"), ("(m a ...)", "(flat a ...)")]),
     # sub-templates under an ellipsis that also hold things which are not pattern variables: (), constants, free identifiers, vectors
     ("empty-list-in-run", [], [("(m a ...)", "(r (f () a) ...)")]),
     ("constants-in-run", [], [("(m a ...)", "(r (q 0 \"s\" #t free a) ...)")]),
     ("vector-in-run", [], [("(m a ...)", "(r #(a ()) ...)")]),
     ("nested-list-in-run", [], [("(m (a b) ...)", "(r ((a) (() b)) ...)")]),
 ]
-USES = ["(#(1))", "(#())", "((1))", "()", "(1)", "(1 2)", "(1 2 3)", "((1 2))", "((1 2) (3 4))", "((1 2) 3)", "(lit 5)", "(x 5)", "(2 7)", "(#(1 2))", "(#(1 2 3))",
+USES = ["(1 2 lit)", "(1 2 lit 4)", "(1 lit)", "((1 2) lit)", "(#(1))", "(#())", "((1))", "()", "(1)", "(1 2)", "(1 2 3)", "((1 2))", "((1 2) (3 4))", "((1 2) 3)", "(lit 5)", "(x 5)", "(2 7)", "(#(1 2))", "(#(1 2 3))",
         "((1 (2 3)) 4)", "((1 2 3) 9)", "(1 . 2)", "((1 2 . 3))", '("lit" 5)', "((1 2) (3 4 . 5))"]
-QUICK_USES = ["(#(1))", "(#())", "((1))", "()", "(1)", "(1 2)", "(1 2 3)", "((1 2) (3 4))", "(lit 5)", "(2 7)", "(#(1 2))", "((1 2 . 3))", '("lit" 5)']
+QUICK_USES = ["(1 2 lit)", "(1 2 lit 4)", "(1 lit)", "((1 2) lit)", "(#(1))", "(#())", "((1))", "()", "(1)", "(1 2)", "(1 2 3)", "((1 2) (3 4))", "(lit 5)", "(2 7)", "(#(1 2))", "((1 2 . 3))", '("lit" 5)']
 
 
 def table(fb, thorough=False):
